@@ -30,9 +30,11 @@ class ChainSim:
         self.control = self.group.all_layers[5]
         self.runner = LayerRunner(repo)
 
-    def receive(self, tag, cell, domains):
+    def receive(self, tag, cell, domains, extra_hooks=None):
         sim = self.group
         it = sim.new_interp(cell, domains)
+        if extra_hooks:
+            it.hooks.update(extra_hooks)
         ctrl = self.runner.make_layer(it, self.control)
         ctrl[1].fields["_manager"] = ("ext", "AxolotlManager", [])     # set by the connected event; opaque here
         g = sim.make_group(it)
@@ -131,6 +133,41 @@ def rule_notif(ctx, repo, tier):
                 ctx.violate("C07.notif", w, label + ": " + what.split(":")[0], "%s in %d cell(s), e.g. %s" % (what, len(labs), labs[0][:140]))
         else:
             ctx.hold("C07.notif", w, label, "%d cell(s): exactly one ack each, fields copied from the notification" % n_ok)
+        if flags != configs(tier)[0]:
+            continue
+        # "every incoming notification": the acknowledgement does not depend on the notification's entity being parseable
+        # (a stanza whose children / data are not what the parser expects). The same cells with the parsers of the
+        # notification entities failing: still one ack with the notification's fields (the error may go on upward)
+        fired = []
+
+        def failing_parser(itp, c, args, kwargs, env, depth, e):
+            if "protocol_notifications" in c.module.name:
+                fired.append(c.name)
+                raise _Raise(("ext", "ValueError", []), "ValueError: the notification cannot be parsed")
+            return None
+        try:
+            res2 = enumerate_cells(lambda cell, d: sim.receive("notification", cell, d, extra_hooks={"classmethod:fromProtocolTreeNode": failing_parser}), {}, max_cells=4000)
+        except Budget:
+            ctx.undecided("C07.notif", w, "unparseable notification", "budget exceeded")
+            continue
+        bad2, n2 = {}, 0
+        for cell, rs in res2:
+            if not rs["raised"] or "cannot be parsed" not in rs["raised"]:
+                continue
+            n2 += 1
+            acks = [n for n in [node_of(e) for e in flat_effects(rs["effects"]) if e[0] == "DOWN"] if tagname(n) == "ack"]
+            lab = cell_label(cell)
+            if len(acks) != 1:
+                bad2.setdefault("%d acknowledgements when the entity parser raises" % len(acks), []).append(lab)
+            elif attr(acks[0], "id") != A((), "id") or attr(acks[0], "to") != A((), "from"):
+                bad2.setdefault("the ack sent when the parser raises does not carry the notification's id / sender", []).append(lab)
+        if not n2:
+            ctx.undecided("C07.notif", w, "unparseable notification", "no cell reached a parser of the notification entities (%d parser calls)" % len(fired))
+        elif bad2:
+            for what, labs in sorted(bad2.items()):
+                ctx.violate("C07.notif", w, "unparseable notification", "%s: the server is never told that the notification arrived (in %d cell(s), e.g. %s)" % (what, len(labs), labs[0][:120]))
+        else:
+            ctx.hold("C07.notif", w, "unparseable notification", "%d cell(s) in which the entity parser raises: the ack is sent all the same" % n2)
 
 
 def rule_call(ctx, repo):
